@@ -159,6 +159,8 @@ def float_text(n, e):
 def pe(e, paren="min", parent=None, side=None):
     k = e["k"]
     if k == "lit":
+        if "raw" in e:                      # literal given by its text (values outside the specification's exact domain; not for NslSem)
+            return e["raw"]
         if e["t"] == "float":
             return float_text(e["n"], e["e"])
         return str(e["v"])
